@@ -191,6 +191,19 @@ func nativeReplayOpt(cases []*vpCase, race bool) (map[string]*vpResult, error) {
 		for _, r := range rs {
 			res[r.ID] = r
 		}
+		// the test process died (runtime fatal error: stack overflow, out of memory ...): the case that
+		// was running is recorded as crashed and the rest is re-run
+		if cur, cerr := os.ReadFile(out + ".cur"); cerr == nil && rerr != nil && strings.Contains(string(outb), "fatal error:") {
+			id := string(cur)
+			if _, done := res[id]; !done {
+				msg := string(outb)
+				if i := strings.Index(msg, "fatal error:"); i >= 0 {
+					msg = firstLines(msg[i:], 1)
+				}
+				res[id] = &vpResult{ID: id, Panic: msg + " (the process died)"}
+			}
+		}
+		os.Remove(out + ".cur")
 		var next []*vpCase
 		for _, c := range remaining {
 			if _, ok := res[c.ID]; !ok {
@@ -261,6 +274,7 @@ type checkOutput struct {
 	discharged    int
 	folded        int
 	unknownObl    int
+	skippedRuns   int
 	inconclusive  int
 	truncated     bool
 	engineErrs    []string
@@ -420,13 +434,38 @@ func fmtParams(p map[string]int) string {
 }
 
 type knownFinding struct {
-	Property    string `json:"property"`
-	Harness     string `json:"harness"`
-	Label       string `json:"label"`
-	Status      string `json:"status"` // "known" | "fixed"
-	Commit      string `json:"commit,omitempty"`
-	Witness     string `json:"witness,omitempty"`
-	Description string `json:"description"`
+	Property string `json:"property"`
+	Harness  string `json:"harness"`
+	Label    string `json:"label"`
+	Status   string `json:"status"` // "known" | "fixed"
+	Commit   string `json:"commit,omitempty"`
+	Witness  string `json:"witness,omitempty"`
+	// Values identifies the failing input of a "known" finding: harness input name -> value
+	// (as in the replay file). A violation with other values is a different violation.
+	Values      map[string]string `json:"values,omitempty"`
+	Description string            `json:"description"`
+}
+
+// matches: the violation is the listed finding (same property / harness / label and the same identifying input).
+func (kf knownFinding) matches(prop string, v violation) bool {
+	if kf.Property != prop || kf.Status != "known" || kf.Harness != v.Harness || kf.Label != v.Label {
+		return false
+	}
+	if len(kf.Values) == 0 {
+		return false // a known finding must name the input that fails
+	}
+	for name, want := range kf.Values {
+		found := false
+		for _, val := range v.Case.Values {
+			if val.Name == name && val.Val == want {
+				found = true
+			}
+		}
+		if !found {
+			return false
+		}
+	}
+	return true
 }
 
 func loadKnown() []knownFinding {
@@ -499,10 +538,71 @@ func cmdCheck(args []string) int {
 		if h.ThoroughOnly && *tier != "thorough" {
 			continue
 		}
+		nBefore := len(out.violations)
 		if err := runHarness(p, h, *tier, *workers, out); err != nil {
 			fmt.Fprintln(os.Stderr, "engine failure:", err)
 			writeEvidenceFailure(chk, *tier, seed, time.Since(t0), "engine failure: "+err.Error())
 			return 3
+		}
+		// fail fast: candidates of this run are replayed natively at once; after a confirmed
+		// violation that is not a listed known finding the remaining runs are skipped (the verdict is
+		// already "violated"; evidence lists the skipped runs)
+		if !*noReplay && !chk.Race && len(out.violations) > nBefore && *only == "" {
+			var cs []*vpCase
+			for _, v := range out.violations[nBefore:] {
+				if len(cs) < 8 {
+					cs = append(cs, v.Case)
+				}
+			}
+			if rs, err := nativeReplayOpt(cs, false); err == nil {
+				known := loadKnown()
+				hit := false
+				for _, v := range out.violations[nBefore:] {
+					r := rs[v.Case.ID]
+					if r == nil || r.AssumeFailed {
+						continue
+					}
+					ok := false
+					switch v.Kind {
+					case "assert":
+						for _, e := range r.Events {
+							if e == "A:"+v.Label+":false" {
+								ok = true
+							}
+						}
+					case "panic":
+						ok = r.Panic != ""
+					case "budget":
+						ok = r.Timeout
+					}
+					if ok {
+						listed := false
+						for _, kf := range known {
+							if kf.matches(chk.ID, v) {
+								listed = true
+							}
+						}
+						if !listed {
+							hit = true
+						}
+					}
+				}
+				if hit {
+					skipped := 0
+					seen := false
+					for _, h2 := range chk.Runs {
+						if seen && !(h2.ThoroughOnly && *tier != "thorough") {
+							skipped++
+						}
+						if h2.Harness == h.Harness && fmt.Sprint(h2.Quick) == fmt.Sprint(h.Quick) {
+							seen = true
+						}
+					}
+					fmt.Printf("  a violation of %s was confirmed natively: the remaining %d run(s) are skipped\n", h.Harness, skipped)
+					out.skippedRuns = skipped
+					break
+				}
+			}
 		}
 	}
 	// native replays
@@ -537,8 +637,48 @@ func cmdCheck(args []string) int {
 				}
 			}
 		}
+		// A candidate whose failure depends on hidden state (a cache, a pool, a memo in a package-level
+		// variable) may not reproduce in the batch process, where earlier cases have already changed that
+		// state; the engine's path starts from the freshly initialised package. Such candidates are replayed
+		// once more, each alone in a fresh process, before they are called spurious.
+		fresh := map[string]*vpResult{}
+		freshRuns := 0
+		reproduced := func(v violation, r *vpResult) bool {
+			if r == nil || r.AssumeFailed {
+				return false
+			}
+			switch v.Kind {
+			case "assert":
+				for _, e := range r.Events {
+					if e == "A:"+v.Label+":false" {
+						return true
+					}
+				}
+			case "panic":
+				return r.Panic != ""
+			case "budget":
+				return r.Timeout
+			}
+			return false
+		}
+		for _, v := range out.violations {
+			if chk.Race || reproduced(v, res[v.Case.ID]) || freshRuns >= 12 {
+				continue
+			}
+			if strings.Contains(v.Label, "no-hidden-state-written") || strings.Contains(v.Label, "no-write-to-caller-data") || strings.Contains(v.Label, "no-shared-write") {
+				continue // monitor-only labels: the native build has no write monitor, nothing to reproduce
+			}
+			freshRuns++
+			if rs, err := nativeReplayOpt([]*vpCase{v.Case}, false); err == nil && rs[v.Case.ID] != nil {
+				fresh[v.Case.ID] = rs[v.Case.ID]
+			}
+		}
 		for _, v := range out.violations {
 			r := res[v.Case.ID]
+			if fr := fresh[v.Case.ID]; fr != nil && reproduced(v, fr) {
+				r = fr
+				v.Detail += " | reproduced in a fresh process (not in the batch: the failure depends on state left by earlier cases)"
+			}
 			ok := false
 			if r != nil && !r.AssumeFailed {
 				switch v.Kind {
@@ -586,7 +726,8 @@ func cmdCheck(args []string) int {
 			if r == nil {
 				continue
 			}
-			if !r.AssumeFailed && !r.Exhausted && r.NameMismatch == "" && equalStrings(r.Events, c.Expected) {
+			died := strings.Contains(r.Panic, "the process died") && len(c.Expected) > 0 && c.Expected[len(c.Expected)-1] == "PANIC"
+			if !r.AssumeFailed && !r.Exhausted && r.NameMismatch == "" && (equalStrings(r.Events, c.Expected) || died) {
 				validated++
 				if len(out.sampleObjects) < 6 {
 					out.sampleObjects = append(out.sampleObjects, map[string]interface{}{"harness": c.Harness, "params": c.Params, "input": c.Values, "events_symbolic_and_native": c.Expected})
@@ -612,16 +753,28 @@ func cmdCheck(args []string) int {
 	}
 	sort.Strings(keys)
 	os.MkdirAll(filepath.Join(verifDir, "replays"), 0o755)
+	printedKnown := map[string]bool{}
 	for _, k := range keys {
-		v := confirmed[k][0]
-		isKnown := false
-		for _, kf := range known {
-			if kf.Property == chk.ID && kf.Status == "known" && kf.Harness == v.Harness && kf.Label == v.Label {
-				isKnown = true
-				fmt.Printf("KNOWN-FINDING: property=%s %s %s: %s\n", chk.ID, v.Harness, v.Label, kf.Description)
+		// every confirmed violation under this label is compared with the listed findings; the
+		// first one that is not listed is reported
+		var v violation
+		unlisted := false
+		for _, cand := range confirmed[k] {
+			isKnown := false
+			for _, kf := range known {
+				if kf.matches(chk.ID, cand) {
+					isKnown = true
+					if !printedKnown[kf.Description] {
+						printedKnown[kf.Description] = true
+						fmt.Printf("KNOWN-FINDING: property=%s %s %s input=%s: %s\n", chk.ID, cand.Harness, cand.Label, renderValues(cand.Case.Values), kf.Description)
+					}
+				}
+			}
+			if !isKnown && !unlisted {
+				v, unlisted = cand, true
 			}
 		}
-		if isKnown {
+		if !unlisted {
 			continue
 		}
 		nviol++
@@ -640,6 +793,9 @@ func cmdCheck(args []string) int {
 	status := "holds within the stated bounds"
 	if out.inconclusive > 0 || out.unknownObl > 0 || out.truncated || mismatched > 0 || len(out.missingReach) > 0 || len(out.engineErrs) > 0 {
 		status = "INCONCLUSIVE in part (see evidence: inconclusive paths / unknown obligations / truncation / replay mismatches)"
+	}
+	if len(printedKnown) > 0 && status == "holds within the stated bounds" {
+		status = fmt.Sprintf("holds within the stated bounds apart from %d listed known finding(s)", len(printedKnown))
 	}
 	if exit != 0 {
 		status = "VIOLATED"
@@ -766,7 +922,8 @@ func writeEvidence(chk *Check, tier string, seed int, wall time.Duration, out *c
 		"bounds":                   chk.Bounds,
 		"outside_the_claim":        chk.Outside,
 		"missing_reach":            out.missingReach,
-		"engine_errors":            out.engineErrs,
+		"runs_skipped_after_first_confirmed_violation": out.skippedRuns,
+		"engine_errors": out.engineErrs,
 	}
 	ev := map[string]interface{}{
 		"property_id": chk.ID, "tier": tier, "seed": seed, "level": "model_checking",
